@@ -93,6 +93,8 @@ def dry_false(guards):
 
 
 def run(ctx):
+    # locals / parameters the rules below refer to by name (a rename makes the analysis 'broken', never a violation)
+    ctx.anchor(ctx.fn1('Oomd::BaseKillPlugin::tryToKillCgroup'), 'dry')
     P, cg = ctx.prog, ctx.cg
     roots = [f for f in P.fns.values() if f.name == "run" and (
         f.pq == "Oomd::BaseKillPlugin::run" or f.pq.startswith("Oomd::SystemdRestart") or
